@@ -248,7 +248,11 @@ def expected_plain(line):
     return "\t".join(twelve(line) + f[12:])
 
 
-def big_file_case(seed, nrec, stable, pad=120, block=20000, n_ref=12, contig="chr1", line_len=None, canonical=False):
+_NOISE = "ABCDEFGHIJKLMNOPQRSTUVWXYZabcdefghijklmnopqrstuvwxyz0123456789+/"
+
+
+def big_file_case(seed, nrec, stable, pad=120, block=20000, n_ref=12, contig="chr1", line_len=None, canonical=False,
+                  noise=False):
     """A deterministic large GAF (many records, several BGZF blocks) over a small fixed bubble chain.
     Size thresholds (e.g. 'more than 1000 selected records') are invisible to small generated files."""
     import random
@@ -289,7 +293,8 @@ def big_file_case(seed, nrec, stable, pad=120, block=20000, n_ref=12, contig="ch
             pe = rnd.randint(max(ps + 1, total - last + 1), total)
         rec = {"name": "q%d" % i, "qlen": pe - ps + 4, "qs": 2, "qe": 2 + pe - ps, "strand": "+", "steps": steps, "plen": total,
                "ps": ps, "pe": pe, "matches": pe - ps, "block": pe - ps, "mapq": 60, "cg": "%d=" % (pe - ps),
-               "tags": ["NM:i:0", "zq:Z:" + "k" * rnd.randint(0, pad)], "cg_pos": 1}
+               "tags": ["NM:i:0", "zq:Z:" + ("".join(rnd.choice(_NOISE) for _ in range(rnd.randint(0, pad))) if noise
+                                             else "k" * rnd.randint(0, pad))], "cg_pos": 1}
         line = conv.stable_line(g["nodes"], rec) if stable else gen_gaf.record_line(rec)
         if line_len:
             # every line (with its newline) is exactly line_len bytes: records end on every multiple of line_len,
